@@ -15,7 +15,7 @@ TECHNIQUE = (
 )
 LEVEL_TEXT = (
     "Patterns are generated from the documented grammar (1-3 levels, comma lists of n, a-b, -b, a-, *, numbers at and around every level "
-    "boundary and up to 70000, reversed and duplicated ranges, leading zeros; 'i-' internal globs over literals, ? and *). Each is "
+    "boundary and up to 70000, reversed and duplicated ranges, leading zeros; 'i-' internal globs over literals, ?, * and [..] / [!..] classes, incl. the pattern's own text as address). Each is "
     "matched by the real code against a boundary-stratified sample of the 65,536 group addresses (a share of the patterns, 2 quick / "
     "960 thorough, against all 65,536) in the notation with the same number of levels, twice (same object forward, freshly built twin backward after "
     "unrelated filters were built). Exploration: the pattern space is sampled."
@@ -28,7 +28,8 @@ LEVEL_NOTE = (
     "internal-addressed telegrams with colliding raw values (same raw as IA and GA, both orders), repeats and notation switches (twin objects, "
     "forward and reversed): every verdict equals the reference (pure function of filters / address list, destination, notation) and the verdict "
     "of a brand-new Callback asked the same question. Not judged (recorded): patterns outside the grammar (empty values, "
-    "bare '-', Unicode digits, blanks, 4 levels, [..] sets in globs, glob prefixes other than the documented 'i-'), notation/level mismatches, match(0) / match('0/0/0') refusing the "
+    "bare '-', Unicode digits, blanks, 4 levels, glob prefixes other than the documented 'i-'; character classes are judged only in "
+    "their plain form: 1-3 members, at most one ascending range, optional '!', no '-' / ']' / '^' / backslash inside), notation/level mismatches, match(0) / match('0/0/0') refusing the "
     "broadcast address."
 )
 SHARDS = {"quick": 1, "thorough": 16}
@@ -84,15 +85,73 @@ def ref_match(tables, raw: int, nlev: int) -> bool:
     return True
 
 
+def glob_tokens(pat: str):
+    """Tokens of a glob: ("star",), ("any",), ("lit", c), ("set", negated, members, ranges).
+
+    Character classes as in shell globs: '[' opens a class when a closing ']' follows (a ']' directly after '[' or '[!' is a member,
+    not the end); '!' first negates; 'a-c' inside is a range; a '[' that is never closed is an ordinary character."""
+    out = []
+    i, n = 0, len(pat)
+    while i < n:
+        c = pat[i]
+        if c == "*":
+            out.append(("star",))
+        elif c == "?":
+            out.append(("any",))
+        elif c == "[":
+            j = i + 1
+            if j < n and pat[j] == "!":
+                j += 1
+            if j < n and pat[j] == "]":
+                j += 1
+            while j < n and pat[j] != "]":
+                j += 1
+            if j >= n:
+                out.append(("lit", "["))
+            else:
+                body = pat[i + 1:j]
+                negated = body.startswith("!")
+                if negated:
+                    body = body[1:]
+                members, ranges = set(), []
+                k = 0
+                while k < len(body):
+                    if k + 2 < len(body) and body[k + 1] == "-":
+                        ranges.append((body[k], body[k + 2]))
+                        k += 3
+                    else:
+                        members.add(body[k])
+                        k += 1
+                out.append(("set", negated, frozenset(members), tuple(ranges)))
+                i = j
+        else:
+            out.append(("lit", c))
+        i += 1
+    return out
+
+
+def _token_accepts(tok, ch: str) -> bool:
+    if tok[0] == "any":
+        return True
+    if tok[0] == "lit":
+        return tok[1] == ch
+    _s, negated, members, ranges = tok
+    inside = ch in members or any(lo <= ch <= hi for lo, hi in ranges)
+    return inside != negated
+
+
 def ref_glob(pat: str, text: str) -> bool:
-    """Own glob: * any run of characters, ? exactly one, everything else literal. Iterative with backtracking to the last *."""
+    """Own glob: * any run of characters, ? exactly one, [..] / [!..] one character of (not of) the class, everything else literal.
+
+    Iterative with backtracking to the last *."""
+    toks = glob_tokens(pat)
     p = t = 0
     star_p = star_t = -1
     while t < len(text):
-        if p < len(pat) and pat[p] == "*":
+        if p < len(toks) and toks[p][0] == "star":
             star_p, star_t = p, t
             p += 1
-        elif p < len(pat) and (pat[p] == "?" or pat[p] == text[t]):
+        elif p < len(toks) and _token_accepts(toks[p], text[t]):
             p += 1
             t += 1
         elif star_p >= 0:
@@ -100,9 +159,9 @@ def ref_glob(pat: str, text: str) -> bool:
             p, t = star_p + 1, star_t
         else:
             return False
-    while p < len(pat) and pat[p] == "*":
+    while p < len(toks) and toks[p][0] == "star":
         p += 1
-    return p == len(pat)
+    return p == len(toks)
 
 
 # ---------------------------------------------------------------- generator
@@ -581,6 +640,44 @@ def gen_glob(rng):
     return "".join(toks)
 
 
+def gen_class_glob(rng) -> str:
+    """Glob with character classes (simple, well-formed: 1-3 members, at most one ascending range, optional '!') or with the
+    characters '[', ']' and '!' standing for themselves (a '[' that is never closed, a ']' without an opening '[')."""
+    def plain():
+        r = rng.random()
+        return "*" if r < 0.12 else "?" if r < 0.24 else rng.choice(_ALPHA)
+
+    if rng.random() < 0.7:
+        parts = [rng.choice(_ALPHA)] if rng.random() < 0.5 else []
+        for _ in range(rng.randint(1, 2)):
+            body = "".join(rng.sample(_ALPHA, rng.randint(1, 3)))
+            if rng.random() < 0.3:
+                body += rng.choice(("a-e", "0-9", "x-z"))
+            parts.append("[" + ("!" if rng.random() < 0.35 else "") + body + "]")
+            parts += [plain() for _ in range(rng.randint(0, 2))]
+        return "".join(parts)
+    # brackets and '!' as ordinary characters: every ']' comes before the only '[', which is therefore never closed
+    head = [rng.choice(_ALPHA)] + [rng.choice((plain(), "]", "!")) for _ in range(rng.randint(1, 3))]
+    tail = ["["] + [rng.choice(_ALPHA + "!") for _ in range(rng.randint(0, 2))] if rng.random() < 0.7 else []
+    return "".join(head + tail)
+
+
+def instantiate_tokens(rng, glob: str, hit: bool = True) -> str:
+    """A name built along the tokens; with hit=False one class position gets a character outside (inside, if negated) the class."""
+    out = []
+    for tok in glob_tokens(glob):
+        if tok[0] == "star":
+            out.append("".join(rng.choice(_ALPHA) for _ in range(rng.choice((0, 0, 1, 2)))))
+        elif tok[0] == "any":
+            out.append(rng.choice(_ALPHA + "[]!"))
+        elif tok[0] == "lit":
+            out.append(tok[1])
+        else:
+            pool = [c for c in _ALPHA + "cd5[]!" if _token_accepts(tok, c) == hit]
+            out.append(rng.choice(pool) if pool else "~")
+    return "".join(out)
+
+
 def instantiate(rng, glob: str) -> str:
     out = []
     for ch in glob:
@@ -602,9 +699,12 @@ def _clean_name(name: str) -> str:
 
 
 def check_internal(ctx, rng, index: int):
-    glob = _clean_name(gen_glob(rng))
+    with_class = rng.random() < 0.35
+    glob = _clean_name(gen_class_glob(rng) if with_class else gen_glob(rng))
     if not glob:
         return
+    if with_class:
+        ctx.count("internal_patterns_with_class_or_bracket_literals")
     text = "i-" + glob  # the documented prefix; other spellings are exercised in exercise_outside
     flt = _build(text)
     ctx.count("internal_patterns")
@@ -623,7 +723,11 @@ def check_internal(ctx, rng, index: int):
             names.add(s[:k] + rng.choice(_ALPHA) + s[k + 1:])
             names.add(s + rng.choice(_ALPHA))
             names.add(s.swapcase())
-    names.add(glob)
+    if with_class:
+        for _ in range(4):
+            names.add(instantiate_tokens(rng, glob, True))
+            names.add(instantiate_tokens(rng, glob, False))
+    names.add(glob)   # the pattern's own text as an address
     names.add("".join(rng.choice(_ALPHA) for _ in range(rng.randint(1, 6))))
     n_true = 0
     for name in sorted(names):
@@ -639,13 +743,21 @@ def check_internal(ctx, rng, index: int):
             if got is exp:
                 ctx.count("internal_match_calls")
                 ctx.count("internal_expected_true" if exp else "internal_expected_false")
+                if with_class:
+                    ctx.count("internal_class_expected_true" if exp else "internal_class_expected_false")
+                    if name == glob:
+                        ctx.count("internal_class_pattern_text_as_address_expected_" + ("true" if exp else "false"))
                 continue
             kind = f"raises-{type(got).__name__}" if isinstance(got, BaseException) else ("false-positive" if got else "false-negative")
-            feature = "star" if "*" in glob else "question-mark" if "?" in glob else "literal"
+            tok_kinds = {t[0] for t in glob_tokens(glob)}
+            feature = ("character-class" if "set" in tok_kinds else "bracket-literal" if with_class else
+                       "star" if "star" in tok_kinds else "question-mark" if "any" in tok_kinds else "literal")
+            if name == glob and "set" in tok_kinds:
+                feature += "-address-text-equals-pattern-text"
             ctx.violation(f"internal-glob-{kind}-{feature}-{form}-address",
                           {"pattern": text, "glob": glob, "address": apre + name, "expected": exp, "got": repr(got)},
                           f"AddressFilter({text!r}).match({apre + name!r}) returned {got!r}, expected {exp}")
-    ctx.distinct(("internal", "".join(c if c in "*?" else "L" for c in glob), n_true > 0))
+    ctx.distinct(("internal", "".join(t[0][0] if t[0] != "set" else ("N" if t[1] else "C") for t in glob_tokens(glob)), n_true > 0))
     if index < 2:
         ctx.sample({"pattern": text, "names_tried": len(names), "expected_matching": n_true})
     # cross kind: an internal filter never matches a group address
@@ -692,6 +804,7 @@ def run(ctx):
                 "65,536; distinct = (levels, item kinds per level, saw match, saw non-match) and glob shapes")
     ctx.require("match_calls", "expected_true", "expected_false", "patterns_1level", "patterns_2level", "patterns_3level",
                 "internal_match_calls", "internal_expected_true", "internal_expected_false", "callback_filter_checks", "cross_kind_checks",
+                "internal_class_expected_true", "internal_class_expected_false", "internal_class_pattern_text_as_address_expected_false",
                 "callback_expected_true", "callback_expected_false", "callback_evaluations_GA", "callback_evaluations_IA", "callback_evaluations_IGA",
                 "callback_colliding_raw_individual-address_first", "callback_colliding_raw_group-address_first",
                 "callback_same_destination_repeated", "callback_same_destination_seen_under_other_notation")
@@ -700,7 +813,10 @@ def run(ctx):
     ok = [i for i in range(256) if t[i]] == [3, 4, 5, 250, 251, 252, 253, 254, 255]
     ok = ok and level_values(0x1234, 3) == (2, 2, 0x34) and level_values(0x1234, 2) == (2, 0x234) and level_values(0x1234, 1) == (0x1234,)
     ok = ok and ref_glob("t?st*", "test") and ref_glob("*a*b", "xaxxb") and not ref_glob("t?st", "tst") and not ref_glob("a*b", "ab1") \
-        and ref_glob("*", "") and not ref_glob("?", "")
+        and ref_glob("*", "") and not ref_glob("?", "") \
+        and ref_glob("[ab]c", "ac") and not ref_glob("[ab]c", "[ab]c") and ref_glob("[!ab]c", "xc") and not ref_glob("[!ab]c", "ac") \
+        and ref_glob("x[0-9]", "x7") and not ref_glob("x[0-9]", "xa") and ref_glob("a[b", "a[b") and ref_glob("a]b", "a]b") \
+        and ref_glob("[]a]", "]") and ref_glob("a!b", "a!b")
     if not ok:
         ctx.inconclusive("reference matcher failed its self test")
         return
